@@ -91,10 +91,31 @@ func filterState(m pbState, min, max int32) string {
 var pbModel = porcupine.Model{
 	Init: func() interface{} { return "" },
 	Step: func(state, input, output interface{}) (bool, interface{}) {
-		m := decState(state.(string))
+		// state = current book, optionally followed by "\x02" + the stored book (absent: no file)
+		full := state.(string)
+		curS, savedS, hasSaved := full, "", false
+		if i := strings.Index(full, "\x02"); i >= 0 {
+			curS, savedS, hasSaved = full[:i], full[i+1:], true
+		}
+		m := decState(curS)
 		in := input.(pbIn)
 		out := output.(pbOut)
+		encState := func(m pbState) string { // shadows the plain encoder: keep the stored part
+			if hasSaved {
+				return encState(m) + "\x02" + savedS
+			}
+			return encState(m)
+		}
 		switch in.Op {
+		case "save":
+			return true, curS + "\x02" + curS
+		case "load":
+			if hasSaved {
+				return true, savedS + "\x02" + savedS
+			}
+			return true, ""
+		case "clear":
+			return true, ""
 		case "add":
 			_, exists := m[in.Addr]
 			if out.OK == exists {
@@ -180,7 +201,11 @@ func c20Concurrent(ctx context.Context, run *common.Run, obs *c20obs, idx int) {
 			for i := 0; i < perG; i++ {
 				in := pbIn{Addr: addrs[r.Intn(len(addrs))]}
 				var out pbOut
-				switch r.Intn(10) {
+				switch r.Intn(12) {
+				case 10:
+					in.Op = "save"
+				case 11:
+					in.Op = []string{"load", "load", "clear"}[r.Intn(3)]
 				case 0, 1, 2:
 					in.Op = "add"
 				case 3, 4, 5:
@@ -218,6 +243,12 @@ func c20Concurrent(ctx context.Context, run *common.Run, obs *c20obs, idx int) {
 					}
 				case "count":
 					out.N = repo.Count()
+				case "save":
+					repo.Save(ctx)
+				case "load":
+					repo.Load(ctx)
+				case "clear":
+					repo.Clear(ctx)
 				}
 				ret := now()
 				mu.Lock()
